@@ -41,7 +41,14 @@ func crashScenarios(tier string) []*simScenario {
 	for _, b := range bases {
 		out = append(out, crashScenario(b, dev+1))
 	}
-	// bootstrap: a single node that bootstraps itself through ChangeConfig
+	// bootstrap: nodes that hold only their identity; the cluster is bootstrapped through ChangeConfig
+	out = append(out, &simScenario{
+		Name:    "crashat-bootstrap",
+		Opt:     worldOpt{Nodes: 2, EagerFSM: true, EagerLU: true, EagerConnect: true},
+		Menu:    simMenu{OrderCost: true, CrashAt: true, Crashes: true, Timeouts: true, MaxTerm: 3, Admin: []string{"bootstrap"}, MaxAdmin: 2},
+		MaxDev:  dev + 2,
+		Crashes: 1,
+	})
 	return out
 }
 
